@@ -364,8 +364,7 @@ func (fr *Frame) binop(x *ssa.BinOp, st *State, g string) {
 	case token.LSS, token.LEQ, token.GTR, token.GEQ:
 		op := map[token.Token]string{token.LSS: "<", token.LEQ: "<=", token.GTR: ">", token.GEQ: ">="}[x.Op]
 		if tc.sortOf(t) == "Str" {
-			fc.unsupported("string ordering")
-			fr.freshVal(x, st, g)
+			fr.setVal(x, "Bool", fc.strOrder(op, a.t, b.t)) // ext_strorder.go: strict total order strlt
 			return
 		}
 		fr.setVal(x, "Bool", app(op, a.t, b.t))
@@ -990,6 +989,7 @@ func (fr *Frame) localsAt(h *ssa.BasicBlock, pidx int) (map[string]func(*State) 
 	out := map[string]func(*State) SV{}
 	addrs := map[string]SV{}
 	fc := fr.fc
+	fr.lastValRef = nil
 	// debug refs whose value dominates h
 	for _, b := range fr.fn.Blocks {
 		if !(b.Dominates(h)) {
@@ -1041,6 +1041,10 @@ func (fr *Frame) localsAt(h *ssa.BasicBlock, pidx int) (map[string]func(*State) 
 			} else {
 				sv := fr.val(x)
 				out[id.Name] = func(*State) SV { return sv }
+				if fr.lastValRef == nil {
+					fr.lastValRef = map[string]*ssa.BasicBlock{}
+				}
+				fr.lastValRef[id.Name] = b // ext_locals.go: a debug ref AFTER an earlier loop wins over that loop's phi (below)
 			}
 		}
 	}
@@ -1094,6 +1098,9 @@ func (fr *Frame) localsAt(h *ssa.BasicBlock, pidx int) (map[string]func(*State) 
 			if sv, known := fr.vals[phi]; known {
 				if li := fr.loops[b]; li != nil && li.body[h] {
 					continue // enclosing loop: handled below
+				}
+				if rb := fr.lastValRef[phi.Comment]; rb != nil && rb != b && b.Dominates(rb) && fr.loops[b] != nil && !fr.loops[b].body[rb] {
+					continue // the variable was re-bound after that loop (key = append(key, …) past the loop): the later value is current
 				}
 				out[phi.Comment] = func(*State) SV { return sv }
 			}
